@@ -90,3 +90,19 @@ test_success_time_now_ns_called_twice_but_different_rule_indices if {
 
 	r == set()
 }
+
+# location strings don't sort numerically ("10:..." < "9:..."): the call left out must still be the first one
+test_fail_reports_repeated_call_not_first_when_rows_differ_in_digits if {
+	module := ast.policy(`
+
+
+
+
+	took := then if {
+		now := time.now_ns()
+		then := time.now_ns() - now
+	}`)
+	r := rule.report with input as module
+
+	{v.location.row | some v in r} == {10}
+}
